@@ -6,9 +6,9 @@ HERE = os.path.dirname(os.path.abspath(__file__))
 sys.path.insert(0, os.path.join(HERE, "..", "..", "lib"))
 sys.path.insert(0, HERE)
 import vcommon as V
-import resume as R
-import families as F
-import engine as E
+import c03_resume as R
+import c03_families as F
+import c03_engine as E
 
 
 def main():
